@@ -1,6 +1,7 @@
 CONSTANTS
     Mode = "all"
     EffSrcLocs = {"", "l1", "l2", "l3"}
+    ExtraItems = {"readonly", "bind-propagation"}
 INIT Init
 NEXT Next
 INVARIANT MountOrderFree
